@@ -105,7 +105,12 @@ Clash101(a, b) ==
   IN <<a, b>> \in P \/ <<b, a>> \in P
 Base101 == [ntx |-> 1, ocA |-> TRUE, ocB |-> "none", ipA |-> FALSE, ipB |-> FALSE, s52A |-> FALSE, s52B |-> FALSE,
             f21R |-> FALSE, cur2 |-> "same", f36 |-> FALSE, f21F |-> FALSE, f33 |-> "none", e23 |-> <<>>, info |-> FALSE,
-            f56 |-> FALSE, f57 |-> FALSE]
+            f56 |-> FALSE, f57 |-> FALSE, amt |-> "normal"]
+\* the amount of the first transaction: 100,00 / the smallest amount that is not zero.  ("zero" is what rules C2 and
+\* C9 (E54) turn on, but the library's field 32B refuses a zero amount, so no parsed message carries one; Expected101
+\* states the rules for it all the same)
+Amts101 == {"normal", "cent"}
+Amt101Str(a) == IF a = "zero" THEN "0" ELSE IF a = "cent" THEN "0.01" ELSE "100"
 Codes101 == Valid101 \cup {"ZZZZ"}
 Facts101 ==
      {[Base101 EXCEPT !.f36 = a, !.f21F = b, !.f33 = c] : a, b \in BOOLEAN, c \in {"none", "same", "diff"}}
@@ -114,6 +119,12 @@ Facts101 ==
   \cup {[Base101 EXCEPT !.ntx = n, !.f21R = a, !.cur2 = b] : n \in {2, 3, 4}, a \in BOOLEAN, b \in {"same", "diff", "lastdiff"}}
   \cup {[Base101 EXCEPT !.f56 = a, !.f57 = b] : a, b \in BOOLEAN}
   \cup {[Base101 EXCEPT !.e23 = e, !.info = i] : e \in SeqsUpTo(Codes101, 2), i \in BOOLEAN}
+  \* zero and smallest amounts with the fields the amount decides about (D60, E54)
+  \cup {[Base101 EXCEPT !.amt = m, !.f33 = c, !.f36 = a, !.f21F = b, !.e23 = e] :
+           m \in Amts101, c \in {"none", "diff"}, a, b \in BOOLEAN, e \in {<<>>, <<"EQUI">>, <<"URGP">>}}
+  \* several repeated codes at once (several E46 findings: their order must be stable)
+  \cup {[Base101 EXCEPT !.e23 = e] : e \in {<<"INTC", "URGP", "INTC", "URGP">>, <<"URGP", "URGP", "PHON", "PHON">>,
+                                              <<"INTC", "PHON", "URGP", "URGP", "PHON", "INTC">>}}
   \* several forbidden combinations at once (several D67 findings: their order must be stable)
   \cup {[Base101 EXCEPT !.e23 = <<a, b, c>>] : a, b, c \in {"CHQB", "CMSW", "CMTO", "CORT", "URGP"}}
 
@@ -122,7 +133,10 @@ OcInAny(f)  == f.ocB # "none"
 Expected101(f) ==
   LET codes == Range(f.e23) IN
      (IF f.f36 /\ ~f.f21F THEN {"D54"} ELSE {})
-  \cup (IF (f.f33 # "none" /\ ~f.f36) \/ (f.f33 = "none" /\ f.f36) THEN {"D60"} ELSE {})       \* 32B is never zero here
+  \cup (IF (f.f33 # "none" /\ f.amt # "zero" /\ ~f.f36) \/ (f.f33 # "none" /\ f.amt = "zero" /\ f.f36) \/ (f.f33 = "none" /\ f.f36)
+        THEN {"D60"} ELSE {})
+  \cup (IF f.amt = "zero" /\ (("EQUI" \in codes /\ f.f33 = "none") \/ ("EQUI" \notin codes /\ (f.f33 # "none" \/ f.f21F)))
+        THEN {"E54"} ELSE {})
   \cup (IF (f.ocA /\ OcInAny(f)) \/ (~f.ocA /\ ~OcInAll(f)) THEN {"D61"} ELSE {})
   \cup (IF f.ipA /\ f.ipB THEN {"D62"} ELSE {})
   \cup (IF f.f33 = "same" THEN {"D68"} ELSE {})
@@ -138,7 +152,7 @@ Build101(f) ==
   \o (IF f.ipA THEN <<"50C">> ELSE <<>>) \o (IF f.ocA THEN <<"50H">> ELSE <<>>) \o (IF f.s52A THEN <<"52A">> ELSE <<>>)
   \o <<"30", "21">> \o (IF f.f21F THEN <<"21F">> ELSE <<>>)
   \o [i \in 1..Len(f.e23) |-> "23E=" \o f.e23[i] \o (IF f.info THEN "/INFO" ELSE "")]
-  \o <<"32B=USD:100">>
+  \o <<"32B=USD:" \o Amt101Str(f.amt)>>
   \o (IF f.ipB THEN <<"50L">> ELSE <<>>) \o (IF f.ocB \in {"first", "all"} THEN <<"50H">> ELSE <<>>)
   \o (IF f.s52B THEN <<"52A">> ELSE <<>>) \o (IF f.f56 THEN <<"56A">> ELSE <<>>) \o (IF f.f57 THEN <<"57A">> ELSE <<>>)
   \o <<"59=acct">>
@@ -167,6 +181,13 @@ Kinds == {"none", "F", "G", "both"}
 HasF(k) == k \in {"F", "both"}
 HasG(k) == k \in {"G", "both"}
 ChToks(k, amt) == (IF HasF(k) THEN <<"71F=USD:" \o amt>> ELSE <<>>) \o (IF HasG(k) THEN <<"71G=USD:" \o amt>> ELSE <<>>)
+\* charges currencies: every field's occurrences must agree among themselves (71F with 71F, 71G with 71G), not the two
+\* fields with each other.  chcur = which field's sequence-C occurrence is in another currency; gcur = the currency of 71G
+ChCurs == {"same", "F", "G"}
+ChToksB(f) == (IF HasF(f.chB) THEN <<"71F=USD:1">> ELSE <<>>) \o (IF HasG(f.chB) THEN <<"71G=" \o f.gcur \o ":1">> ELSE <<>>)
+ChToksC(f, k, amt) == (IF HasF(k) THEN <<"71F=" \o (IF f.chcur = "F" THEN "GBP" ELSE "USD") \o ":" \o amt>> ELSE <<>>)
+                      \o (IF HasG(k) THEN <<"71G=" \o (IF f.chcur = "G" THEN "GBP" ELSE f.gcur) \o ":" \o amt>> ELSE <<>>)
+ChCurClash(f, kC) == (f.chcur = "F" /\ HasF(f.chB) /\ HasF(kC)) \/ (f.chcur = "G" /\ HasG(f.chB) /\ HasG(kC))
 Mags == {"unit", "big", "bigcent"}
 Each(mag) == IF mag = "unit" THEN 100 ELSE 30000000
 EachStr(mag) == ToString(Each(mag))
@@ -177,7 +198,7 @@ TotalStr(mag, n, exact, k) == IF exact THEN ToString(Each(mag) * n)
 OtherStr(mag) == IF mag = "unit" THEN "90" ELSE IF mag = "big" THEN "29999990" ELSE ToString(Each(mag)) \o ".01"
 Base107 == [ntx |-> 1, e23 |-> "A", cr |-> "A", f21E |-> "none", f26T |-> "none", f77B |-> "none", f71A |-> "none",
             f52 |-> "none", ip |-> "none", code |-> "AUTH", info |-> FALSE, f72 |-> FALSE,
-            chB |-> "none", chC |-> "none", f33 |-> "none", f36 |-> FALSE, sumok |-> TRUE, cur2 |-> "same", mag |-> "unit"]
+            chB |-> "none", chC |-> "none", chcur |-> "same", gcur |-> "USD", f33 |-> "none", f36 |-> FALSE, sumok |-> TRUE, cur2 |-> "same", mag |-> "unit"]
 Facts107 ==
      {[Base107 EXCEPT !.ntx = n, !.e23 = a, !.cr = b] : n \in {1, 2}, a, b \in Place}
   \cup {[Base107 EXCEPT !.ntx = 2, !.f21E = a, !.cr = b] : a \in {"none", "A", "first", "all", "Aall"}, b \in {"A", "all", "first"}}
@@ -185,6 +206,7 @@ Facts107 ==
   \cup {[Base107 EXCEPT !.ntx = 2, !.f71A = a, !.f52 = b, !.ip = c] : a, b, c \in {"none", "A", "first", "Aall"}}
   \cup {[Base107 EXCEPT !.code = a, !.info = b, !.f72 = c] : a \in {"AUTH", "NAUT", "OTHR", "RTND", "ZZZZ"}, b, c \in BOOLEAN}
   \cup {[Base107 EXCEPT !.chB = a, !.chC = b] : a, b \in Kinds}
+  \cup {[Base107 EXCEPT !.chB = a, !.chC = b, !.chcur = c, !.gcur = g] : a, b \in {"F", "G", "both"}, c \in ChCurs, g \in {"USD", "EUR"}}
   \cup {[Base107 EXCEPT !.f33 = a, !.f36 = b] : a \in {"none", "same", "diffcur", "diffamt"}, b \in BOOLEAN}
   \cup {[Base107 EXCEPT !.ntx = n, !.sumok = a, !.cur2 = b] : n \in {2, 3}, a \in BOOLEAN, b \in {"same", "diff", "lastdiff"}}
   \cup {[Base107 EXCEPT !.ntx = n, !.sumok = a, !.mag = m] : n \in {2, 3}, a \in BOOLEAN, m \in Mags}
@@ -202,7 +224,10 @@ Expected107(f) ==
                                              \* with charges in sequence B the sum must be in field 19 (absent here: D80);
                                              \* no field 19 here: the settlement amount itself must be the sum (D80);
                                              \* C01 concerns field 19, which these vectors never carry
-  \cup (IF f.ntx >= 2 /\ f.cur2 # "same" THEN {"C02"} ELSE {})
+  \* MT107 documents 32B and 71G as ONE currency group (every 71G in the settlement currency, USD here) and 71F as
+  \* another; MT104 documents 32B, 71G and 71F as three groups
+  \cup (IF (f.ntx >= 2 /\ f.cur2 # "same") \/ (f.chcur = "F" /\ HasF(f.chB) /\ HasF(f.chC))
+           \/ (HasG(f.chB) /\ f.gcur # "USD") \/ (HasG(f.chC) /\ (f.chcur = "G" \/ f.gcur # "USD")) THEN {"C02"} ELSE {})
   \cup (IF f.code = "ZZZZ" /\ f.e23 # "none" THEN {"T47"} ELSE {})
   \cup (IF f.info /\ f.code # "OTHR" /\ f.e23 # "none" THEN {"D81"} ELSE {})
 Opt107(p, tok, inA, i) == IF (inA /\ InA(p)) \/ (~inA /\ InB(p, i)) THEN <<tok>> ELSE <<>>
@@ -214,7 +239,7 @@ Tx107(f, i) ==
   \o (IF i = 1 /\ f.f33 = "same" THEN <<"33B=USD:" \o EachStr(f.mag)>> ELSE IF i = 1 /\ f.f33 = "diffcur" THEN <<"33B=EUR:90">>
       ELSE IF i = 1 /\ f.f33 = "diffamt" THEN <<"33B=USD:" \o OtherStr(f.mag)>> ELSE <<>>)
   \o Opt107(f.f71A, "71A=SHA", FALSE, i)
-  \o ChToks(f.chB, "1")
+  \o ChToksB(f)
   \o (IF i = 1 /\ f.f36 THEN <<"36">> ELSE <<>>)
 Build107(f) ==
   <<"20">> \o Opt107(f.e23, "23E=" \o f.code \o (IF f.info THEN "/INFO" ELSE ""), TRUE, 0) \o Opt107(f.f21E, "21E", TRUE, 0)
@@ -223,14 +248,14 @@ Build107(f) ==
   \o (IF f.f72 THEN <<"72">> ELSE <<>>)
   \o Tx107(f, 1) \o (IF f.ntx >= 2 THEN Tx107(f, 2) ELSE <<>>) \o (IF f.ntx >= 3 THEN Tx107(f, 3) ELSE <<>>)
   \o <<"32B=USD:" \o TotalStr(f.mag, f.ntx, f.sumok, 7)>>
-  \o ChToks(f.chC, ToString(f.ntx))
+  \o ChToksC(f, f.chC, ToString(f.ntx))
 
 (* ================================ MT104 ================================== *)
 (* direct debit / request for direct debit: like MT107 plus the RFDD regime (C1, C12), an optional      *)
 (* settlement sequence C and field 19                                                                     *)
 Base104 == [ntx |-> 1, e23 |-> "A", codeA |-> "AUTH", codeB |-> "AUTH", info |-> FALSE, cr |-> "A", f21E |-> "none",
             f26T |-> "none", f77B |-> "none", f71A |-> "none", f52 |-> "none", ip |-> "none", f72 |-> FALSE, f21R |-> FALSE,
-            seqC |-> TRUE, chB |-> "none", chC |-> "none", f33 |-> "none", f36 |-> FALSE, sumok |-> TRUE, cur2 |-> "same",
+            seqC |-> TRUE, chB |-> "none", chC |-> "none", chcur |-> "same", gcur |-> "USD", f33 |-> "none", f36 |-> FALSE, sumok |-> TRUE, cur2 |-> "same",
             f19 |-> "none", mag |-> "unit"]
 Facts104 ==
      {[Base104 EXCEPT !.ntx = n, !.e23 = a, !.codeA = c, !.cr = b, !.seqC = d, !.f21R = r] :
@@ -243,6 +268,7 @@ Facts104 ==
   \cup {[Base104 EXCEPT !.e23 = "Aall", !.codeA = "RFDD", !.seqC = FALSE, !.f21R = r, !.f21E = a, !.f52 = b, !.chB = c] :
          r \in BOOLEAN, c \in {"none", "both"}, a, b \in {"none", "first"}}
   \cup {[Base104 EXCEPT !.chB = a, !.chC = b, !.seqC = c] : a, b \in Kinds, c \in BOOLEAN}
+  \cup {[Base104 EXCEPT !.chB = a, !.chC = b, !.chcur = c, !.gcur = g] : a, b \in {"F", "G", "both"}, c \in ChCurs, g \in {"USD", "EUR"}}
   \cup {[Base104 EXCEPT !.f33 = a, !.f36 = b] : a \in {"none", "same", "diffcur", "diffamt"}, b \in BOOLEAN}
   \cup {[Base104 EXCEPT !.ntx = n, !.sumok = a, !.cur2 = b, !.f19 = c] : n \in {2, 3}, a \in BOOLEAN, b \in {"same", "diff", "lastdiff"}, c \in {"none", "ok", "bad"}}
   \cup {[Base104 EXCEPT !.ntx = n, !.sumok = a, !.f19 = c, !.mag = m] : n \in {2, 3}, a \in BOOLEAN, c \in {"none", "ok", "bad"}, m \in Mags}
@@ -263,7 +289,7 @@ Expected104(f) ==
   \cup (IF (f.f33 = "diffcur" /\ ~f.f36) \/ (f.f33 # "diffcur" /\ f.f36) THEN {"D75"} ELSE {})
   \cup (IF f.seqC /\ ((f.sumok /\ f19 # "none") \/ (~f.sumok /\ f19 = "none")) THEN {"D80"} ELSE {})
   \cup (IF f19 = "bad" THEN {"C01"} ELSE {})
-  \cup (IF f.ntx >= 2 /\ f.cur2 # "same" THEN {"C02"} ELSE {})
+  \cup (IF (f.ntx >= 2 /\ f.cur2 # "same") \/ ChCurClash(f, chC) THEN {"C02"} ELSE {})
   \cup (IF rfdd /\ (InAnyB(f.f21E) \/ InAnyB(f.cr) \/ InAnyB(f.f52) \/ f.chB # "none" \/ f.seqC) THEN {"C96"} ELSE {})
   \cup (IF ~rfdd /\ (f.f21R \/ ~f.seqC) THEN {"C96"} ELSE {})
   \cup (IF (a23 /\ f.codeA = "ZZZZ") \/ (InAnyB(f.e23) /\ f.codeB \notin {"AUTH", "NAUT", "OTHR"}) THEN {"T47"} ELSE {})
@@ -276,7 +302,7 @@ Tx104(f, i) ==
   \o (IF i = 1 /\ f.f33 = "same" THEN <<"33B=USD:" \o EachStr(f.mag)>> ELSE IF i = 1 /\ f.f33 = "diffcur" THEN <<"33B=EUR:90">>
       ELSE IF i = 1 /\ f.f33 = "diffamt" THEN <<"33B=USD:" \o OtherStr(f.mag)>> ELSE <<>>)
   \o Opt107(f.f71A, "71A=SHA", FALSE, i)
-  \o ChToks(f.chB, "1")
+  \o ChToksB(f)
   \o (IF i = 1 /\ f.f36 THEN <<"36">> ELSE <<>>)
 Build104(f) ==
   <<"20">> \o (IF f.f21R THEN <<"21R">> ELSE <<>>)
@@ -289,7 +315,7 @@ Build104(f) ==
       THEN <<"32B=USD:" \o TotalStr(f.mag, f.ntx, f.sumok, 7)>>
            \o (IF f.f19 = "ok" THEN <<"19=" \o TotalStr(f.mag, f.ntx, TRUE, 0)>>
                ELSE IF f.f19 = "bad" THEN <<"19=" \o TotalStr(f.mag, f.ntx, FALSE, 3)>> ELSE <<>>)
-           \o ChToks(f.chC, "1")
+           \o ChToksC(f, f.chC, "1")
       ELSE <<>>)
 
 (* ================================ MT110 ================================== *)
@@ -437,7 +463,7 @@ Next == UNCHANGED vars
 Spec == Init /\ [][Next]_vars
 
 (* design-level: the baseline of every ruled type is valid; every code of a type is producible *)
-RulesTotal == Expected(mt, facts) \subseteq {"D75", "E01", "E02", "E06", "C81", "E16", "E17", "E13", "D50", "E15", "D51", "C02",
+RulesTotal == Expected(mt, facts) \subseteq {"E54", "D75", "E01", "E02", "E06", "C81", "E16", "E17", "E13", "D50", "E15", "D51", "C02",
                                              "E18", "E44", "E45", "T36", "T48", "D97", "E46", "D98", "D67", "T10", "C68",
                                              "C01", "C06", "T88", "C22", "C23", "C40", "T14", "C27", "C25",
                                              "D54", "D60", "D61", "D62", "D68", "D64", "D65", "T47", "D66", "D86", "D73", "D77",
